@@ -48,3 +48,6 @@ Qed.
 Definition curclose_tree (c : curclose) : tree := TL [TI (cc_id c); TB (cc_name c); TI (cc_options c)].
 Definition curclose_of_tree (t : tree) : curclose :=
   {| cc_id := t_int (t_nth 0 t); cc_name := t_bytes (t_nth 1 t); cc_options := t_int (t_nth 2 t) |}.
+
+Lemma curclose_of_tree_tree c : curclose_of_tree (curclose_tree c) = c.
+Proof. destruct c; reflexivity. Qed.
